@@ -12,7 +12,7 @@ from .index import indexes
 
 pp.ParserElement.set_default_whitespace_chars(' \t\r')
 
-alias = pp.WordStart() + pp.Literal('as').suppress() - pp.WordEnd() - name
+alias = pp.WordStart() + pp.CaselessLiteral('as').suppress() - pp.WordEnd() - name
 
 
 header_color = (
